@@ -42,6 +42,32 @@ def canonical(lengths):
     return codes
 
 
+def huffman_errors_propagate(ctx, rule="C15-c"):
+    """prefix_string::decode hands a Huffman decoding error on (shared with C11-c): every item of the hpack_decode() iterator
+    is examined, an Err item ends the function with that error, and no adapter that drops errors sits on the iterator."""
+    prog = ctx.prog
+    sd = ru.need(ctx, rule, P + "decode")
+    if not sd:
+        return
+    ps = [p for p in ru.all_paths(ctx, rule, sd, max_visits=1) if p.has_call("hpack_decode")]
+    ctx.floor(rule, "Huffman paths of prefix_string::decode", len(ps), 2)
+    errp = [p for p in ps if p.end == "return" and not p.ret_shape().startswith("Ok(") and
+            any(t[2] in ("Break", "Err") and "next@" in t[1] and "<Some>.0" in t[1] for t in p.tests)]
+    ctx.check(bool(errp), rule, sd.key, "an Err item of the Huffman iterator ends decode with that error",
+              "prefix_string::decode has no path that returns an error because an item of hpack_decode() was Err: invalid padding, an EOS "
+              "symbol or a truncated code is dropped and the string is accepted (possibly shortened)", "")
+    dropping = ("flatten", "map_while", "filter_map", "flat_map", "take_while", "scan")
+    bad = sorted({t.cname for bb, t in sd.all_terms() if t.t == "call" and t.cname in dropping and (t.ckey or "").startswith(("core::iter", "<"))} |
+                 {pa.short(a[1]) for p in ps for e in p.calls() for a in e[3] if a[0] == "fn" and a[1] in ("core::result::Result::ok", "core::result::Result::unwrap_or_default")})
+    ctx.check(not bad, rule, sd.key, "no error-dropping adapter on the Huffman iterator",
+              "prefix_string::decode runs the Huffman iterator through %s, which silently discards Err items" % bad, "")
+    okp = [p for p in ps if p.end == "return" and p.ret_shape().startswith("Ok(")]
+    for p in okp:
+        ex_ = [t[2] for t in p.tests if t[3][0] == "discr" and "next@" in t[1] and "<Some>" not in t[1]]
+        ctx.check(ex_[-1:] == ["None"], rule, sd.key, "Ok only when the Huffman iterator is exhausted",
+                  "an Ok return on the Huffman path does not follow the iterator's None (decisions on next(): %s)" % ex_[-2:], "", None, p.describe())
+
+
 def huffman_decode_rows(ctx, rule="C15-a"):
     """Row table of HuffmanDecoder::decode_next (shared with C11: a string literal with an EOS code is not a valid field section)."""
     prog = ctx.prog
@@ -317,6 +343,7 @@ def run(ctx):
         raw = [p for p in ps if any(expr.cmp_nf(t[3], t[2]) and expr.cmp_nf(t[3], t[2])[1] == "==" and "BitAnd" in t[1] for t in p.tests)]
         ctx.check(all(not p.has_call("hpack_decode") for p in raw) and any(p.has_call("hpack_decode") for p in ps), "C15-c", sd.key,
                   "H=0 raw copy, H=1 Huffman", "the Huffman decoder is not selected by the H flag", "")
+    huffman_errors_propagate(ctx, "C15-c")
     se = ru.need(ctx, "C15-c", P + "encode")
     if se:
         ps = [p for p in ru.all_paths(ctx, "C15-c", se, max_visits=1)]
